@@ -292,7 +292,7 @@ def numeric_search(entry, path, names, nsamples=40, seed=0, tol=1e-20, extra=(),
             k, _, l, r = cl[nm]
             lv, rv = val[l], val[r]
             if mp.isnan(lv) or mp.isnan(rv): continue
-            sc = max(1, abs(lv), abs(rv))
+            sc = max(1, abs(lv), abs(rv)) if scale_inputs else max(abs(lv), abs(rv), mp.mpf(10) ** -300)
             if scale_inputs: sc = max([sc] + [abs(tomp(v)) for v in asg.values()])
             bad = (abs(lv - rv) > tol * sc) if k == 'EQ' else ((lv > rv) if k == 'LE' else (lv >= rv))
             if bad: found[nm] = (asg, float(lv), float(rv))
